@@ -130,3 +130,5 @@ def run(rep, tier):
     rep.floor('generated classes examined', stats['classes'], 12)
     freevar_protocol(rep)
     reference_pass_order(rep)
+    from .. import controls
+    controls.e1_controls(rep)
